@@ -513,7 +513,7 @@ PID_STAGES = ('_skin_graph', '_bfs', '_make_pid', '_c_set', '_rings_filter')
 _pid_state = {'off': None}
 
 
-def pid_stage(mol, adj, dist):
+def pid_stage(mol, adj, dist, tag=''):
     """the stages of `_sssr` run on the real source under ascending set order (c06_sorted); None = not compared"""
     if _pid_state['off'] is None:
         try:
@@ -530,6 +530,10 @@ def pid_stage(mol, adj, dist):
     except Exception:
         return None
     if not rc or rc < 0:
+        return None
+    if _pid_state.get('quick') and len(adj) == 6 and tag.startswith('exhaustive-labelled') and \
+            zlib.crc32(repr(sorted((n, tuple(sorted(ms))) for n, ms in adj.items())).encode()) % 3:
+        dist['pid-skipped-quick-sample (2 of 3 labelled 6-atom graphs; all of them in thorough)'] += 1
         return None
     if len(two_core(adj)) > PID_MAX_SKIN:
         dist['pid-skipped-large'] += 1
@@ -639,7 +643,7 @@ def evaluate(cases, build_ok=True):
             if err.startswith('crash') or not exempt(gap, 'sssr-raises'):
                 broke('relational', 'sssr-raises', f'{tag}: mol.sssr raised {err}; wire={ints}{_hist_note(histories, ints)}', ints)
         items.append((tag, ints, fields, rings, err, adj))
-        pid_impl.append(pid_stage(mol, adj, res['dist']))
+        pid_impl.append(pid_stage(mol, adj, res['dist'], tag))
     if not build_ok or not items:
         return res
     lines = [case_line(ints, rings or []) for _, ints, _, rings, _, _ in items]
@@ -862,6 +866,64 @@ def theta_edges(a, b, c):
             edges.append((prev, nxt))
             prev, nxt = nxt, nxt + 1
         edges.append((prev, 2))
+    return nxt - 1, edges
+
+
+def strained_cage(rng, max_atoms=12):
+    """Small strained polycyclic cage (degree <= 4): a bicyclic / propellane-like core whose bridges have 1-3 bonds
+    (bicyclo[1.1.0]butane, [1.1.1]pentane, [2.1.1]hexane, [2.2.1]heptane, [1.1.1]propellane ...), then 1-4 further rings:
+    fused on a bond (1-3 new atoms), spiro (3/4-ring), one-atom bridges and chords between atoms two bonds apart.
+    This is the class in which rings without an atom of their own pile up in the `hold` list of `_rings_filter`, so that
+    `_connected_rings` / `_is_condensed_ring` decide the result - for a fraction of the numberings only."""
+    nb = rng.choice([3, 3, 3, 4])
+    lens = [rng.choice([1, 2, 2, 2, 3, 3]) for _ in range(nb)]
+    while lens.count(1) > 1:
+        lens[lens.index(1)] = 2
+    edges, nxt = [], 3
+    for ln in lens:
+        prev = 1
+        for _ in range(ln - 1):
+            edges.append((prev, nxt))
+            prev, nxt = nxt, nxt + 1
+        edges.append((prev, 2))
+    for _ in range(rng.randint(1, 4)):
+        if nxt - 1 >= max_atoms:
+            break
+        d = collections.Counter(v for e in edges for v in e)
+        g = collections.defaultdict(set)
+        for a, b in edges:
+            g[a].add(b)
+            g[b].add(a)
+        mode = rng.choice(['fuse', 'fuse', 'spiro', 'bridge', 'bridge', 'chord'])
+        if mode == 'fuse':
+            cand = [(a, b) for a, b in edges if d[a] < 4 and d[b] < 4]
+            if not cand:
+                continue
+            a, b = rng.choice(cand)
+            k = rng.choice([1, 1, 2, 2, 3])
+            chain = [a] + list(range(nxt, nxt + k)) + [b]
+            nxt += k
+            edges += list(zip(chain, chain[1:]))
+        elif mode == 'spiro':
+            cand = [a for a in sorted(g) if d[a] <= 2]
+            if not cand:
+                continue
+            a = rng.choice(cand)
+            k = rng.choice([2, 2, 3])
+            chain = [a] + list(range(nxt, nxt + k)) + [a]
+            nxt += k
+            edges += list(zip(chain, chain[1:]))
+        else:
+            pairs = sorted({(a, b) for a in g if d[a] < 4 for m in g[a] for b in g[m]
+                            if b > a and b not in g[a] and d[b] < 4})
+            if not pairs:
+                continue
+            a, b = rng.choice(pairs)
+            if mode == 'chord':
+                edges.append((a, b))
+            else:
+                edges += [(a, nxt), (nxt, b)]
+                nxt += 1
     return nxt - 1, edges
 
 
@@ -1306,6 +1368,7 @@ def correspond(ctx):
     rng = ctx.rng
     ctx.cov['programs'] = len(PROGRAMS)
     _state['suspects'] = []
+    _pid_state['quick'] = ctx.quick
     pending = []
 
     def add(tag, ints):
@@ -1380,6 +1443,29 @@ def correspond(ctx):
         ints = graph_ints(n, edges, special, aromatic=[e for e in edges if rng.random() < p_ar])
         add('ring-assembly', ints)
         add('ring-assembly-renumbered', renumbered_ints(rng, ints))
+
+    # 3b. small strained cages (bicyclo[1.1.1]/[2.1.1]/propellane-like cores with further fused / spiro / bridging rings),
+    #     each under MANY numberings: the class in which the filter stage of _rings_filter (`hold` list, _connected_rings,
+    #     _is_condensed_ring) decides the result, and a defect there shows for a fraction of the numberings only
+    #     (round-5 held-out change 1). The two cages of that change are in the regression list.
+    cages = [molgen.parse(smi) for smi in ('CC12C3CC24C35C(C1C4)C5', 'C12C3C2C4CC15C(C3)C4C5', 'C12C3C1C23', 'C1C2CC1C2',
+                                           'C1C2C1C2', 'C12CC1C2', 'C1C2CC12', 'C1CC2CC1C2', 'C12C3C4C1C5C2C3C45')]
+    for m in cages:
+        if m is not None:
+            ints = wire.mol_to_ints(m)
+            for _ in range(14 if ctx.quick else 60):
+                add('strained-cage-renumbered', renumbered_ints(rng, ints))
+    seen_cages = set()
+    for i in range(200 if ctx.quick else 8000):
+        n, edges = strained_cage(rng)
+        key = tuple(sorted(tuple(sorted(e)) for e in edges))
+        if key in seen_cages:
+            continue
+        seen_cages.add(key)
+        ints = graph_ints(n, edges)
+        add('strained-cage', ints)
+        for _ in range(6 if ctx.quick else 11):
+            add('strained-cage-renumbered', renumbered_ints(rng, ints))
 
     # 4. repository molecules (the readers run ring perception themselves: loading is time limited too)
     mols = []
@@ -1678,8 +1764,11 @@ def search(ctx):
             try_history(ints['history'])
             continue
         try_ints(ints)
-        for _ in range(3):
-            try_ints(renumbered_ints(rng, ints))
+        # a defect of the filter stage of _rings_filter shows for a fraction of the numberings only (13-30 % for the round-5
+        # cages): few suspects -> many renumberings of each
+        for _ in range(3 if len(_state['suspects']) > 40 else 40):
+            if try_ints(renumbered_ints(rng, ints)) or time.time() - t0 > budget / 3:
+                break
         if time.time() - t0 > budget / 3:
             break
     # 2. exhaustive small graphs, then assemblies, with and without coordinate bonds
@@ -1693,8 +1782,11 @@ def search(ctx):
         if time.time() - t0 > budget * 2 / 3 or len(seen_sig) >= 6:
             break
     while time.time() - t0 < budget and len(seen_sig) < 6:
-        edges = molgen.ring_assembly(rng)
-        n = max(v for e in edges for v in e)
+        if rng.random() < 0.5:
+            n, edges = strained_cage(rng)
+        else:
+            edges = molgen.ring_assembly(rng)
+            n = max(v for e in edges for v in e)
         sp = rng.sample(edges, min(rng.choice([0, 1, 2]), len(edges)))
         p_ar = rng.choice([0, 0.6, 1])
         try_ints(renumbered_ints(rng, graph_ints(n, edges, sp, aromatic=[e for e in edges if rng.random() < p_ar])))
